@@ -150,4 +150,36 @@ example : (match Scheduler.make ⟨2019, 11, 25⟩ ⟨2020, 3, 1⟩ .day 20 with
 example : (⟨2019, 11, 25⟩ : Date).Valid ∧ StepOK .day 20 := by
   refine ⟨by decide, by decide, ?_⟩; intro _; decide
 
+/-- Month steps: from the first of a month the successor is the first of the following month (valid,
+    again a first), so a step of n months consists of n whole calendar months, for every year. -/
+theorem C07_month_step (t : Date) (hv : t.Valid) (h1 : t.d = 1) :
+    t.increasedByMonth = nextMonthStart t ∧ (nextMonthStart t).Valid ∧ (nextMonthStart t).d = 1 := by
+  obtain ⟨m1, m12, d1, dd⟩ := hv
+  by_cases hm : t.m = 12
+  · refine ⟨?_, ?_, ?_⟩
+    · simp [Date.increasedByMonth, nextMonthStart, hm, h1, dim]
+    · simp only [nextMonthStart, hm, if_true]; exact valid_jan1 _
+    · simp [nextMonthStart, hm]
+  · have hn := dim_ge (isLeap t.y) (t.m + 1) (by omega) (by omega)
+    have h2 : ¬ (t.m + 1 > 12) := by omega
+    refine ⟨?_, ?_, ?_⟩
+    · simp only [Date.increasedByMonth, nextMonthStart, hm, if_false, h2, h1]
+      have : ¬ (1 > dim (isLeap t.y) (t.m + 1)) := by omega
+      simp [this]
+    · simp only [nextMonthStart, hm, if_false]
+      exact ⟨by show 1 ≤ t.m + 1; omega, by show t.m + 1 ≤ 12; omega, by show (1:Int) ≤ 1; omega, by show 1 ≤ dim (isLeap t.y) (t.m + 1); omega⟩
+    · simp [nextMonthStart, hm]
+
+theorem C07_month_steps (n : Nat) (t : Date) (hv : t.Valid) (h1 : t.d = 1) :
+    iter Date.increasedByMonth n t = iter nextMonthStart n t ∧ (iter nextMonthStart n t).Valid ∧ (iter nextMonthStart n t).d = 1 := by
+  induction n generalizing t with
+  | zero => exact ⟨rfl, hv, h1⟩
+  | succ k ih =>
+    obtain ⟨e, v, d⟩ := C07_month_step t hv h1
+    have := ih (nextMonthStart t) v d
+    simp only [iter] at *
+    rw [e]; exact this
+
+example : iter Date.increasedByMonth 3 ⟨2019, 11, 1⟩ = ⟨2020, 2, 1⟩ := by decide
+
 end Pops
